@@ -6,77 +6,68 @@ import (
 	"golang.org/x/tools/go/ssa"
 )
 
-type alt struct {
-	cond  *Term
-	apply func(st *State)
+// encoding/binary.Read(r, order, data) modelled directly on a *bytes.Reader:
+// io.ReadFull semantics, big-endian decoding into *uint8/*uint16/*uint32/*uint64/
+// *int*/[]byte/*[]byte. Anything else is unsupported (inconclusive), never guessed.
+func init() {
+	intrinsics["encoding/binary.Read"] = binaryRead
 }
 
-// forkAlts explores every feasible alternative of an intrinsic with several outcomes.
-// It always returns false: the continuation of each alternative is run recursively.
-func (ex *Exec) forkAlts(st *State, alts []alt) bool {
-	var feas []alt
-	for _, a := range alts {
-		if ex.feasible(a.cond) {
-			feas = append(feas, a)
-		}
-	}
-	if len(feas) == 0 {
-		ex.Infeasible++
+func binaryRead(ex *Exec, st *State, fv FuncV, args []Value, res ssa.Value, at ssa.Instruction) bool {
+	rd, ok := args[0].(IfaceV)
+	if !ok || rd.t == nil {
+		ex.check(st, tTrue, "panic", "binary.Read on nil reader", at)
+		ex.endPath(st, "panic")
 		return false
 	}
-	for i, a := range feas {
-		s := st
-		if i < len(feas)-1 {
-			s = st.clone()
-		}
-		ex.sol.Push()
-		ex.sol.Assert(ex.sol.Name(a.cond))
-		a.apply(s)
-		ex.run(s)
-		ex.sol.Pop()
-		if i < len(feas)-1 {
-			ex.Forks++
-		}
-	}
-	return false
-}
-
-func (ex *Exec) opaqueErr(id string) Value {
-	return IfaceV{t: ex.opaqueErrT, v: OpaqueV{kind: "err", id: id}}
-}
-
-// encoding/binary.Read(r, order, data) modelled directly on a *bytes.Reader:
-// io.ReadFull semantics, big-endian decoding into *uint8/*uint16/*uint32/*uint64/*[]byte.
-func (ex *Exec) binaryRead(st *State, fr *Frame, args []Value, ins *ssa.Call) bool {
-	rd, ok := args[0].(IfaceV)
-	if !ok || rd.t == nil || rd.t.String() != "*bytes.Reader" {
+	if rd.t.String() != "*bytes.Reader" {
 		fail("binary.Read on reader of type %v", rd.t)
+	}
+	if ord, ok := args[1].(IfaceV); !ok || ord.t == nil || ord.t.String() != "encoding/binary.bigEndian" {
+		fail("binary.Read with a byte order other than BigEndian")
 	}
 	rp := rd.v.(PtrV)
 	data := args[2].(IfaceV)
-	pt, isPtr := data.t.Underlying().(*types.Pointer)
-	if !isPtr {
-		fail("binary.Read into %s", data.t)
+	if data.t == nil {
+		fail("binary.Read into nil")
 	}
-	target := data.v.(PtrV)
-	robj := st.load(rp).(StructV)
-	s := robj.f[0].(SliceV)
-	pos := robj.f[1].(*Term)
 	var n *Term
 	var width int
 	var dstSlice SliceV
-	if w, _, ok := intInfo(pt.Elem()); ok {
-		width = w
-		n = u64(int64(w / 8))
-	} else if sl, ok := pt.Elem().Underlying().(*types.Slice); ok {
-		if w, _, ok := intInfo(sl.Elem()); !ok || w != 8 {
+	var target PtrV
+	isSlice := false
+	switch dt := data.t.Underlying().(type) {
+	case *types.Pointer:
+		target = data.v.(PtrV)
+		if w, _, ok := intInfo(dt.Elem()); ok {
+			width = w
+			n = u64(int64(w / 8))
+		} else if sl, ok := dt.Elem().Underlying().(*types.Slice); ok {
+			if w, _, ok := intInfo(sl.Elem()); !ok || w != 8 {
+				fail("binary.Read into %s", data.t)
+			}
+			if target.obj == 0 {
+				fail("binary.Read into nil pointer")
+			}
+			dstSlice = st.load(target).(SliceV)
+			n = dstSlice.len
+			isSlice = true
+		} else {
 			fail("binary.Read into %s", data.t)
 		}
-		dstSlice = st.load(target).(SliceV)
+	case *types.Slice:
+		if w, _, ok := intInfo(dt.Elem()); !ok || w != 8 {
+			fail("binary.Read into %s", data.t)
+		}
+		dstSlice = data.v.(SliceV)
 		n = dstSlice.len
-	} else {
+		isSlice = true
+	default:
 		fail("binary.Read into %s", data.t)
 	}
+	robj := st.load(rp).(StructV)
+	s := robj.f[0].(SliceV)
+	pos := robj.f[1].(*Term)
 	rem := bvBin("bvsub", s.len, pos)
 	atEnd := bvCmp("bvsge", pos, s.len)
 	short := tAnd(tNot(atEnd), bvCmp("bvult", rem, n))
@@ -86,19 +77,30 @@ func (ex *Exec) binaryRead(st *State, fr *Frame, args []Value, ins *ssa.Call) bo
 		o := st.load(rp).(StructV)
 		nf := append([]Value(nil), o.f...)
 		nf[1] = np
+		if len(nf) > 2 {
+			nf[2] = u64(-1) // prevRune
+		}
 		st.store(rp, StructV{f: nf})
 	}
 	alts := []alt{
-		{tAnd(zero, tTrue), func(st *State) { st.top().env[ins] = IfaceV{} }},
-		{tAnd(tNot(zero), atEnd), func(st *State) { st.top().env[ins] = ex.opaqueErr("io.EOF") }},
+		{zero, func(st *State) { setRes(st, res, IfaceV{}) }},
+		{tAnd(tNot(zero), atEnd), func(st *State) { setRes(st, res, ex.opaqueErr("io.EOF")) }},
 		{tAnd(tNot(zero), short), func(st *State) {
+			// io.ReadFull consumed what was there (and, for slices, stored it)
+			if isSlice && dstSlice.obj != 0 {
+				src := st.container(s).(BytesV)
+				dobj := st.heap[dstSlice.obj]
+				cont := getPath(dobj.val, dstSlice.path).(BytesV)
+				na := cont.a.copyFrom(dstSlice.off, src.a, bvBin("bvadd", s.off, pos), rem)
+				st.heap[dstSlice.obj] = &Obj{typ: dobj.typ, val: setPath(dobj.val, dstSlice.path, BytesV{a: na, n: cont.n, w: 8})}
+			}
 			setPos(st, s.len)
-			st.top().env[ins] = ex.opaqueErr("io.ErrUnexpectedEOF")
+			setRes(st, res, ex.opaqueErr("io.ErrUnexpectedEOF"))
 		}},
 		{tAnd(tNot(zero), okc), func(st *State) {
 			src := st.container(s).(BytesV)
 			base := bvBin("bvadd", s.off, pos)
-			if width > 0 {
+			if !isSlice {
 				var v *Term
 				for i := 0; i < width/8; i++ {
 					b := bvZext(src.a.sel(bvBin("bvadd", base, u64(int64(i)))), width)
@@ -108,39 +110,19 @@ func (ex *Exec) binaryRead(st *State, fr *Frame, args []Value, ins *ssa.Call) bo
 						v = bvBin("bvor", bvBin("bvshl", v, bvConst(8, width)), b)
 					}
 				}
+				if target.obj == 0 {
+					fail("binary.Read into nil pointer")
+				}
 				st.store(target, v)
-			} else {
+			} else if dstSlice.obj != 0 {
 				dobj := st.heap[dstSlice.obj]
 				cont := getPath(dobj.val, dstSlice.path).(BytesV)
-				na := &ArrExpr{kind: 3, w: 8, base: cont.a, src: src.a, dOff: dstSlice.off, sOff: base, cnt: n}
+				na := cont.a.copyFrom(dstSlice.off, src.a, base, n)
 				st.heap[dstSlice.obj] = &Obj{typ: dobj.typ, val: setPath(dobj.val, dstSlice.path, BytesV{a: na, n: cont.n, w: 8})}
 			}
 			setPos(st, bvBin("bvadd", pos, n))
-			st.top().env[ins] = IfaceV{}
+			setRes(st, res, IfaceV{})
 		}},
 	}
 	return ex.forkAlts(st, alts)
-}
-
-func (ex *Exec) builtinCopy(st *State, fr *Frame, args []Value, ins *ssa.Call) {
-	d := args[0].(SliceV)
-	var s SliceV
-	switch x := args[1].(type) {
-	case SliceV:
-		s = x
-	default:
-		fail("copy from %T", x)
-	}
-	n := tIte(bvCmp("bvult", d.len, s.len), d.len, s.len)
-	if d.obj != 0 && s.obj != 0 {
-		dobj := st.heap[d.obj]
-		cont, ok := getPath(dobj.val, d.path).(BytesV)
-		if !ok {
-			fail("copy of composite slices")
-		}
-		src := st.container(s).(BytesV)
-		na := &ArrExpr{kind: 3, w: cont.w, base: cont.a, src: src.a, dOff: d.off, sOff: s.off, cnt: n}
-		st.heap[d.obj] = &Obj{typ: dobj.typ, val: setPath(dobj.val, d.path, BytesV{a: na, n: cont.n, w: cont.w})}
-	}
-	fr.env[ins] = n
 }
